@@ -206,7 +206,13 @@ def side_effects(run, rng, n):
             with warnings.catch_warnings():
                 warnings.simplefilter("ignore")
                 if call == "reduce":
-                    flox.groupby_reduce(v, lab, func=func, expected_groups=ex, fill_value=0, sort=rng.random() < 0.5, engine=rng.choice(["numpy", "flox", None]))
+                    from flox.core import ReindexStrategy
+                    rs = ReindexStrategy(blockwise=rng.choice([None, True, False]))
+                    rs0 = copy.deepcopy(rs)
+                    flox.groupby_reduce(v, lab, func=func, expected_groups=ex, fill_value=0, sort=rng.random() < 0.5, engine=rng.choice(["numpy", "flox", None]),
+                                        reindex=rs if rng.random() < 0.5 else None)
+                    if rs != rs0:
+                        lab = lab * np.nan   # a user-supplied ReindexStrategy was modified: force the report below
                 elif call in ("view", "readonly"):
                     # integer labels that are a VIEW (row / slice) of a larger table, with out-of-range and -1 entries
                     table = np.array([[rng.randrange(-1, 7) for _ in range(m)] for _ in range(3)])
@@ -415,7 +421,7 @@ def interleaved(run, rng, n):
 
 def run(run: C.Run):
     rng = random.Random(run.seed)
-    ok = P.front(run, translators=("registry", "tokens"))
+    ok = P.front(run, translators=("registry", "tokens", "effects"))
     thorough = run.tier == "thorough"
     reg_start = snapshot_registry()          # before ANY flox API call of this process
     cocompute_pairs(run, rng, 2500 if thorough else 400)
@@ -437,12 +443,18 @@ def run(run: C.Run):
                 "Eval vm_compute in (filter (fun x => negb (mem x token_args)) (expand derived_params flowing_params), "
                 "filter (fun x => negb (mem x agg_token_attrs)) (expand agg_derived_attrs agg_read_attrs), filter (fun n => negb (name_ok n)) layer_names).\n")
         _, out = C.coq_eval(text, "uncovered", "C14", timeout=120)
-        run.violation({"property": "C14", "kind": "proof obligation no longer checks: some ingredient bound into tasks is not covered by the key",
-                       "failed": P.failed_obligations(run), "uncovered (params, agg attributes, bad layer names)": out[-800:]},
+        from tools.props.c13 import offending_functions
+        (C.WORK / "C13").mkdir(parents=True, exist_ok=True)
+        run.violation({"property": "C14", "kind": "proof obligation no longer checks: an ingredient bound into tasks is not covered by the key, "
+                                                  "or a public entry point may now write into one of its arguments / into module-level state",
+                       "failed": P.failed_obligations(run), "uncovered (params, agg attributes, bad layer names)": out[-800:],
+                       "functions_that_may_store_into_a_parameter_or_module_state (T4)": offending_functions()},
                       nofail=True, tag="obligation")
     run.assumptions += ["dask.base.tokenize is injective on the values it is given (Section hypothesis of C14_equal_keys_equal_tasks)",
                         "cachey / lru_cache return the stored value for an equal key (Section hypotheses of the memo theorem)"]
     run.cov["rule"] = (
+        "T4 regenerates the alias/effect IR of the ~90 functions reachable from the public entry points (module-level state = last "
+        "pseudo-parameter) and Coq re-checks the certificate: no entry point may write into an argument or into module state; "
         "T3 extracts token ingredients / task-bound ingredients / layer names from the AST and Coq proves coverage; K5: pairs and "
         "triples of lazy reductions differing in exactly ONE ingredient (values, labels, func, ddof, q, min_count, fill_value, dtype, "
         "method, engine, sort, reindex, expected_groups) computed in one dask.compute in both orders vs alone; pairs of scans; argument "
@@ -451,6 +463,6 @@ def run(run: C.Run):
 
 
 def replay(run: C.Run, path):
-    P.front(run, translators=("registry", "tokens"))
+    P.front(run, translators=("registry", "tokens", "effects"))
     cocompute_pairs(run, random.Random(run.seed), 200)
     scan_pairs(run, random.Random(run.seed), 30)
